@@ -136,6 +136,9 @@ PARTIAL = [
     "ask only",
 ]
 ASSUMPTIONS = [
+    "constructor keywords whose generated value equals the documented default (DOC_DEFAULTS, read off the signatures / "
+    "docstrings) are left out of the call, so the defaults themselves run while oracle and model use the documented "
+    "values; the arrays handed to tell / tell_dqd are overwritten with garbage right after the call",
     "GradientOperatorEmitter.ask() called between a new ask_dqd() and its tell_dqd() while the stored gradients belong "
     "to a batch of another size (e.g. the empty start-up batch followed by a real ask_dqd) fails inside NumPy "
     "(broadcast ValueError for >= 2 parents, an empty batch for 1) instead of raising RuntimeError; the property's "
@@ -321,6 +324,43 @@ class RefAdam:
 ADAM_EPS_PRIME = Fraction(float(1e-8 / np.sqrt(1 - 0.999)))   # eps / sqrt(1 - beta2): supplied to the model
 
 
+# Documented defaults of the two constructors (signatures / docstrings).  A keyword whose value in the case EQUALS the
+# documented default is left out of the call: the default itself runs, the oracle and the model use the documented value.
+DOC_DEFAULTS = {
+    "GradientOperatorEmitter": {"initial_solutions": None, "x0": None, "line_sigma": 0.0, "measure_gradients": False,
+                                "normalize_grad": False, "epsilon": 1e-8, "operator_type": "isotropic", "bounds": None,
+                                "batch_size": 64, "seed": None},
+    "GradientArborescenceEmitter": {"ranker": "2imp", "selection_rule": "filter", "restart_rule": "no_improvement",
+                                    "grad_opt": "adam", "grad_opt_kwargs": None, "es": "cma_es", "es_kwargs": None,
+                                    "normalize_grad": True, "bounds": None, "batch_size": None, "epsilon": 1e-8,
+                                    "seed": None},
+}
+
+
+def omit_defaults(cls_name, kwargs):
+    out = {}
+    for k, v in kwargs.items():
+        if k in DOC_DEFAULTS[cls_name]:
+            d = DOC_DEFAULTS[cls_name][k]
+            same = (v is None and d is None) or (
+                v is not None and d is not None and type(v) in (bool, int, float, str) and
+                type(d) in (bool, int, float, str) and isinstance(v, bool) == isinstance(d, bool) and v == d)
+            if same:
+                continue
+        out[k] = v
+    return out
+
+
+def trash(handed, ctx):
+    """The caller reuses the arrays it handed to tell / tell_dqd (solution, objective, measures, jacobian, add_info):
+    they are overwritten with garbage; no later ask() / solution point may depend on them."""
+    for a in handed:
+        for arr in (a.values() if isinstance(a, dict) else [a]):
+            if isinstance(arr, np.ndarray) and arr.flags.writeable and arr.size:
+                arr[...] = 777 if arr.dtype.kind in "iu" else -4321.75
+    ctx.count("handed-arrays-overwritten")
+
+
 def rank_weights(k):
     """the recombination weights the emitter computes for k parents (same formula, float64)"""
     w = np.log(k + 0.5) - np.log(np.arange(1, k + 1))
@@ -368,13 +408,13 @@ def run_gae(case, ctx):
     x0 = [float(Fraction(v)) for v in case["x0"]]
     eps = float(Fraction(case["eps"]))
     l2 = float(Fraction(case.get("l2", "0")))
-    gkw = {"l2_coeff": l2} if (okind == "adam" and "l2" in case) else None
-    em = GradientArborescenceEmitter(arch, x0=x0, sigma0=1.0, lr=lr, ranker=mk_rk, es=mk_es,
-                                     grad_opt=mk_opt if okind == "spy" else {"ascent": "gradient_ascent",
-                                                                             "adam": "adam"}[okind],
-                                     grad_opt_kwargs=gkw,
-                                     selection_rule=case["sel"], restart_rule=case["rule"], batch_size=batch,
-                                     normalize_grad=case["norm"], epsilon=eps, seed=case["seed"])
+    # l2_coeff = 0 is AdamOpt's documented default: grad_opt_kwargs is then left out altogether
+    gkw = {"l2_coeff": l2} if (okind == "adam" and "l2" in case and l2 != 0) else None
+    em = GradientArborescenceEmitter(arch, **omit_defaults("GradientArborescenceEmitter", dict(
+        x0=x0, sigma0=1.0, lr=lr, ranker=mk_rk, es=mk_es,
+        grad_opt=mk_opt if okind == "spy" else {"ascent": "gradient_ascent", "adam": "adam"}[okind],
+        grad_opt_kwargs=gkw, selection_rule=case["sel"], restart_rule=case["rule"], batch_size=batch,
+        normalize_grad=bool(case["norm"]), epsilon=eps, seed=case["seed"])))
     ref_adam = RefAdam(n, lr, l2) if okind == "adam" else None
     es, rk = hold["es"], hold["rk"]
     drv = Driver("dqd")
@@ -427,8 +467,12 @@ def run_gae(case, ctx):
                 th = theta_now()
                 try:
                     arr = jac.reshape(1, jac.shape[0], -1) if jac.ndim == 2 else jac
-                    em.tell_dqd(th[None].copy(), np.zeros(1), np.zeros((1, md)), arr.copy(),
-                                {"status": np.zeros(1), "value": np.zeros(1)})
+                    handed = [th[None].copy(), np.zeros(1), np.zeros((1, md)), arr.copy(),
+                              {"status": np.zeros(1), "value": np.zeros(1)}]
+                    try:
+                        em.tell_dqd(*handed)
+                    finally:
+                        trash(handed, ctx)
                     res = "ok"
                 except ValueError:
                     res = "err value"
@@ -509,8 +553,12 @@ def run_gae(case, ctx):
                 nes, nrk = len(es.log), len(rk.log)
                 nopt = len(hold["opt"].log) if okind == "spy" else 0
                 try:
-                    em.tell(sols.copy(), np.zeros(batch), np.zeros((batch, md)),
-                            {"status": np.array(status), "value": np.zeros(batch)})
+                    handed = [sols.copy(), np.zeros(batch), np.zeros((batch, md)),
+                              {"status": np.array(status), "value": np.zeros(batch)}]
+                    try:
+                        em.tell(*handed)
+                    finally:
+                        trash(handed, ctx)
                     res = "ok"
                 except RuntimeError:
                     res = "err runtime"
@@ -728,11 +776,10 @@ def run_gop(case, ctx):
     init = None
     if case.get("init"):
         init = [[float(Fraction(v)) for v in r] for r in case["init"]]
-    em = GradientOperatorEmitter(arch, sigma=sig, sigma_g=sg, x0=None if init is not None else x0,
-                                 initial_solutions=init, line_sigma=lsig, measure_gradients=mg,
-                                 normalize_grad=norm, epsilon=eps,
-                                 operator_type="iso_line_dd" if line else "isotropic", bounds=barg,
-                                 batch_size=batch, seed=case["seed"])
+    em = GradientOperatorEmitter(arch, **omit_defaults("GradientOperatorEmitter", dict(
+        sigma=sig, sigma_g=sg, x0=None if init is not None else x0, initial_solutions=init, line_sigma=lsig,
+        measure_gradients=bool(mg), normalize_grad=bool(norm), epsilon=eps,
+        operator_type="iso_line_dd" if line else "isotropic", bounds=barg, batch_size=batch, seed=case["seed"])))
     lo = [None if v == -np.inf else fr(v) for v in em.lower_bounds]
     hi = [None if v == np.inf else fr(v) for v in em.upper_bounds]
 
@@ -821,8 +868,12 @@ def run_gop(case, ctx):
                 if 0 < len(j) < len(parents):
                     j = np.concatenate([j] + [j[-1:]] * (len(parents) - len(j)))
                 try:
-                    em.tell_dqd(parents.copy(), np.zeros(len(parents)), np.zeros((len(parents), md)), j.copy(),
-                                {"status": np.zeros(len(parents)), "value": np.zeros(len(parents))})
+                    handed = [parents.copy(), np.zeros(len(parents)), np.zeros((len(parents), md)), j.copy(),
+                              {"status": np.zeros(len(parents)), "value": np.zeros(len(parents))}]
+                    try:
+                        em.tell_dqd(*handed)
+                    finally:
+                        trash(handed, ctx)
                 except Exception as ex:  # pylint: disable=broad-except
                     return Failure("oracle", f"{where}: raised {type(ex).__name__}: {str(ex)[:80]}")
                 toks = []
@@ -836,8 +887,10 @@ def run_gop(case, ctx):
                 continue
             if o == "tell":
                 try:
-                    r = em.tell(np.zeros((batch, n)), np.zeros(batch), np.zeros((batch, md)),
-                                {"status": np.zeros(batch), "value": np.zeros(batch)})
+                    handed = [np.zeros((batch, n)), np.zeros(batch), np.zeros((batch, md)),
+                              {"status": np.zeros(batch), "value": np.zeros(batch)}]
+                    r = em.tell(*handed)
+                    trash(handed, ctx)
                 except Exception as ex:  # pylint: disable=broad-except
                     return Failure("corr", f"{where}: tell raised {type(ex).__name__} (model: inherited no-op)")
                 drv.ask("gop tell")
@@ -1127,6 +1180,8 @@ def gen_gop(rng):
             "line_sigma": rng.choice(["0", "1/2"]), "eps": rng.choice(["1/1024", "1/100000000", "1/8", "1/64"]),
             "x0": [rng.choice(["1", "-1", "1/2", "3", "0"]) for _ in range(n)],
             "seed": rng.randrange(1 << 30), "aseed": rng.randrange(1 << 30)}
+    if rng.random() < 0.04:
+        case["batch"] = batch = 64      # the documented default batch_size (its keyword is then left out)
     if case["sigma"] != "0" or case["line"]:
         case["exact"] = case["sigma"] in ("0",) and not case["line"]
     # solution bounds: the archive's elites are k/4 with |k| <= 16 and sigma is up to 2, so with these boxes the
